@@ -209,6 +209,81 @@ def main(tier, seed):
             if why and len(direct_bad) < 4:
                 direct_bad.append({"kind": "failing-input", "why": why, "database_size": size, "auto_index": auto, "bytes_before": len(bb), "bytes_after": len(ab),
                                    "op": "db.insert_multiple(p for p in points, with db.get(TagQuery().id == '1') evaluated before each point is yielded)", "points_inserted": news})
+    # (c) an insert through a Measurement HANDLE that was obtained before the measurement was emptied and obtained again (an older and a newer
+    # handle object for one name), with the index unable to answer a length; (d) an insert whose fsync FAILS: whatever the library then does,
+    # it reads no existing data and makes the same calls at every size
+    handle_calls, fsync_calls = {}, {}
+    for size in (30, 500):
+        for auto in (False, True):
+            g = dbgen.Gen(seed + 9500 + size, {})
+            g.ids = 1
+            pts = g.points_batch(size, in_order=True)
+            for j, p in enumerate(pts):
+                p["meas"] = "keep" if j % 3 else "m1"
+            hist = [("insert", pts, None, "multiple")]
+            newp = g.point(max(p["time"] for p in pts) + dbgen.SEC)
+
+            def two_handles(s):
+                db = s.driver.db
+                old_h = db.measurement("m1")
+                old_h.remove_all()
+                new_h = db.measurement("m1")
+                new_h.insert(M.real_point(tf, g.point(max(p["time"] for p in pts) - 5)))       # out of order: the index cannot answer len any more
+                return [old_h, new_h]
+            held = {}
+
+            def via_old_handle(s, _held=held):
+                return _held["h"][0].insert(M.real_point(tf, newp))
+
+            def pre(s, _held=held):
+                _held["h"] = two_handles(s)
+                return _held["h"]
+            rec = iotie.recorded_run(tf, str(ck.work / f"hnd{size}{int(auto)}"), hist, None, auto, pre_hook=pre, do_op=via_old_handle)
+            raising_runs += 1
+            bb, ab, ev = rec["before_bytes"] or b"", rec["after_bytes"] or b"", rec["events"]
+            handle_calls.setdefault(auto, {})[size] = len(ev)
+            why = None
+            if rec["out"][0] == "raise":
+                why = f"insert through a handle raised {rec['out']}"
+            elif not (ab.startswith(bb) and len(ab) > len(bb)):
+                why = "insert through an older handle object: the previous file content is not a byte-for-byte proper prefix of the new content"
+            elif any(is_read_call(e) for e in ev):
+                why = "insert through an older handle object read existing data: " + str([f"{e[1]}.{e[2]}{e[3] or ''}" for e in ev if is_read_call(e)][:4])
+            if why and len(direct_bad) < 4:
+                direct_bad.append({"kind": "failing-input", "why": why, "database_size": size, "auto_index": auto,
+                                   "state": "h1 = db.measurement('m1'); h1.remove_all(); h2 = db.measurement('m1'); h2.insert(<an earlier point>); then h1.insert(point)",
+                                   "calls": [f"{e[1]}.{e[2]}" for e in ev][:40]})
+            # (d)
+            def failing_fsync(s):
+                real = s.st.os.fsync
+                state = {"n": 0}
+
+                def once(fd):
+                    state["n"] += 1
+                    if state["n"] == 1:
+                        raise OSError(5, "injected: fsync failed")
+                    return real(fd)
+                s.st.os.fsync = once
+                try:
+                    return s.driver.db.insert(M.real_point(tf, newp))
+                finally:
+                    s.st.os.fsync = real
+            rec = iotie.recorded_run(tf, str(ck.work / f"fsy{size}{int(auto)}"), hist, None, auto, do_op=failing_fsync)
+            raising_runs += 1
+            ev = rec["events"]
+            fsync_calls.setdefault(auto, {})[size] = len(ev)
+            why = None
+            bb, ab = rec["before_bytes"] or b"", rec["after_bytes"] or b""
+            if not ab.startswith(bb):
+                why = "an insert whose fsync failed left a file of which the previous content is not a byte-for-byte prefix"
+            elif any(is_read_call(e) for e in ev):
+                why = "an insert whose fsync failed read existing data: " + str([f"{e[1]}.{e[2]}{e[3] or ''}" for e in ev if is_read_call(e)][:4])
+            if why and len(direct_bad) < 4:
+                direct_bad.append({"kind": "failing-input", "why": why, "database_size": size, "auto_index": auto, "outcome": rec["out"], "calls": [f"{e[1]}.{e[2]}" for e in ev][:40]})
+    for label, table in (("through an older handle object", handle_calls), ("whose fsync fails", fsync_calls)):
+        for auto, dct in table.items():
+            if len(set(dct.values())) > 1 and len(direct_bad) < 4:
+                direct_bad.append({"kind": "failing-input", "why": f"the number of I/O calls of an insert {label} depends on how many points are stored", "auto_index": auto, "calls_by_database_size": dct})
     for auto, dct in live_calls.items():
         if len(set(dct.values())) > 1 and len(direct_bad) < 4:
             direct_bad.append({"kind": "failing-input", "why": "with a started iteration alive, the number of I/O calls of an insert depends on how many points are stored",
